@@ -235,6 +235,20 @@ reg("C13", "fault_enumeration",
     "DESIGN.md section 3, C13")
 
 
+reg("C14", "exploration",
+    "Schedule exploration at the sender seam, the only point where the client yields to the event loop: every datagram parks on a "
+    "future and a driver releases pending requests one at a time -- answering them through the reference agent or dropping them "
+    "(the seam honours the retries it is handed, exactly as send_udp does) -- following a choice sequence. A DFS enumerates ALL "
+    "schedules of every pair (and triples) from {get, getnext, walk, bulkwalk, set, multiget} on one client and of two clients on one "
+    "loop, for v2c and SNMPv3 (concurrent first use => concurrent discovery), with and without one lost datagram per operation; "
+    "Hypothesis draws longer choice sequences for 2..6 operations. A stepping wall clock makes request ids differ between "
+    "operations. Oracle: each operation's outcome equals the outcome of the same operation alone on a fresh client and agent losing "
+    "the same number of datagrams; every SNMPv3 request the agent sees verifies (no mixed users, keys or engine data).",
+    "Complete for the sender-seam schedule model of cooperative asyncio (threads are out of scope: puresnmp documents itself as asyncio-only); trusts lib/vagent.py.",
+    "exhaustive DFS over release/drop schedules at the sender seam + Hypothesis-drawn schedules, differential against the same operation run alone",
+    "DESIGN.md section 3, C14")
+
+
 def main():
     present = sorted(os.path.basename(p)[:3].upper()
                      for p in glob.glob(os.path.join(VERIF, "checks", "c[0-9][0-9]_*.py")))
